@@ -312,11 +312,41 @@ def check_panel_analyses(led):
     led.solver_time('z3-feasibility', it.solver_time)
 
 
+def check_grids_not_aliased(led):
+    """Panel._default_field: the stored / returned point arrays are copies of what the caller passed"""
+    import numpy as np
+    func = PF + '_default_field'
+    led.function(func)
+    it, calls = py_panel.mk()
+    X = np.array([[real('x00'), real('x01')], [real('x10'), real('x11')]], dtype=object)
+    Y = np.array([[real('y00'), real('y01')], [real('y10'), real('y11')]], dtype=object)
+    keepX, keepY = X.copy(), Y.copy()
+
+    def run():
+        p, env = fresh(it, 'plate')
+        r = it.call(it.getattr(p, '_default_field'), [X, Y, 5, 5], {})
+        return p, r
+    for path, out in it.explore(run):
+        name = func + '/stored-and-returned-points-do-not-share-memory-with-the-caller-arrays'
+        if out[0] != 'return':
+            led.fail(name + '/no-exception', func, {'raises': out[1].tname}, signature='raise')
+            continue
+        p, r = out[1]
+        probs = []
+        for lab, arr in (('self.Xs', p.attrs.get('Xs')), ('self.Ys', p.attrs.get('Ys')), ('returned xs', r[0]), ('returned ys', r[1])):
+            if isinstance(arr, np.ndarray) and (np.shares_memory(arr, X) or np.shares_memory(arr, Y)):
+                probs.append('%s shares its memory with an array of the caller' % lab)
+        if not ((X == keepX).all() and (Y == keepY).all()):
+            probs.append('the caller arrays were modified')
+        led.ok(name, func) if not probs else led.fail(name, func, {'differences': probs}, signature='grid-alias')
+
+
 def body(led):
     led.assume('C20: kernels and field functions are pure functions of the arguments and panel attributes they read (their contracts); '
                'thread-count independence of the compiled field wrappers is proved in C11 (c11_wrap), that of the integration kernels in C10')
     led.trust('cmverif symbolic executor')
     check_panel_history(led)
+    check_grids_not_aliased(led)
     check_panel_analyses(led)
     from . import c20_shell
     c20_shell.check(led)
